@@ -131,7 +131,10 @@ def fn_type_of(mod, name):
 
 # ----------------------------------------------------------------------------- inliner
 class Inliner:
-    def __init__(s, mod, is_prim, indirect_filter=None, log=None):
+    def __init__(s, mod, is_prim, indirect_filter=None, log=None, stub_map=None, indirect_hook=None, indirect_only=None):
+        s.stub_map = stub_map or {}            # callee name -> replacement function (defined in the harness TU)
+        s.indirect_hook = indirect_hook or {}  # containing function -> harness function called as hook(fp, args...)
+        s.indirect_only = indirect_only or {}  # containing function -> explicit candidate list
         s.mod = mod
         s.is_prim = is_prim            # name -> bool : leave as call
         s.cache = {}
@@ -163,6 +166,15 @@ class Inliner:
         if key in s.cache:
             return s.cache[key]
         f = copy.deepcopy(s.mod.functions[name])
+        if s.stub_map:
+            for b in f.blocks:
+                for ins in b.instrs:
+                    if ins.op == 'call':
+                        cal = ins.x['callee']
+                        while isinstance(cal, CExpr) and cal.op == 'bitcast':
+                            cal = cal.args[0]
+                        if isinstance(cal, GlobalRef) and cal.name in s.stub_map:
+                            ins.x['callee'] = GlobalRef(s.stub_map[cal.name], cal.ty)
         s._resolve_indirect(f)
         changed = True
         while changed:
@@ -202,7 +214,20 @@ class Inliner:
                 if ins.op == 'call' and isinstance(ins.x['callee'], Reg):
                     fp = ins.x['callee']
                     fty = ins.x['fty'] or FuncT(ins.ty, [a.ty for a in ins.args], False)
-                    cands = s.candidates(fty)
+                    hk = f.name if f.name in s.indirect_hook else ('type:' + repr(fty))
+                    if hk in s.indirect_hook:
+                        hook = s.indirect_hook[hk]
+                        s.log.append(('indirect-hook', f.name, repr(fty), hook))
+                        ins.x['callee'] = GlobalRef(hook, None)
+                        rtys = compute_regtypes(s.mod, f)
+                        ins.args = [Reg(fp.name, rtys.get(fp.name) or PtrT(fty))] + list(ins.args)
+                        ins.x['fty'] = None
+                        i += 1
+                        continue
+                    if f.name in s.indirect_only:
+                        cands = list(s.indirect_only[f.name])
+                    else:
+                        cands = s.candidates(fty)
                     s.log.append(('indirect', f.name, repr(fty), list(cands)))
                     u = next(s.uid)
                     post = Block('ic%d.post' % u)
@@ -335,6 +360,7 @@ class FuncInfo:
         s._escape()
         s._int_pointee()
         s._ptrlike()
+        s._liveness()
 
     # -- which allocas never escape the thread
     def base_alloca(s, v, seen=None):
@@ -592,3 +618,91 @@ class FuncInfo:
                                 any(isinstance(v, CExpr) and v.op == 'ptrtoint' for v in srcs):
                             P.add(ins.res); changed = True
         s.ptrlike = P
+
+    # -- registers whose live range crosses a potential scheduling point must survive a return from the thread function
+    #    (statics); all others can be plain locals, which keeps them out of CBMC's state merges at every yield/return
+    def _liveness(s):
+        f = s.f
+
+        def regs_of(v, acc):
+            def vis(x):
+                if isinstance(x, Reg):
+                    acc.add(x.name)
+            walk_value(v, vis)
+        blocks = {b.label: b for b in f.blocks}
+        succ = {}
+        for b in f.blocks:
+            succ[b.label] = successors(b.instrs[-1]) if b.instrs else []
+        # phi uses per edge
+        edge_use = {}
+        for b in f.blocks:
+            for ins in b.instrs:
+                if ins.op != 'phi':
+                    break
+                for v, l in ins.x['incoming']:
+                    acc = edge_use.setdefault((l, b.label), set())
+                    regs_of(v, acc)
+        phidefs = {b.label: {ins.res for ins in b.instrs if ins.op == 'phi'} for b in f.blocks}
+
+        def uses_defs(ins):
+            u = set()
+            if ins.op == 'phi':
+                return u, {ins.res}
+            for cont, k in instr_values(ins):
+                regs_of(cont[k], u)
+            d = {ins.res} if ins.res is not None else set()
+            return u, d
+        live_in = {b.label: set() for b in f.blocks}
+        live_out = {b.label: set() for b in f.blocks}
+        changed = True
+        while changed:
+            changed = False
+            for b in reversed(f.blocks):
+                lo = set()
+                for t in succ[b.label]:
+                    lo |= (live_in[t] - phidefs[t])
+                    lo |= edge_use.get((b.label, t), set())
+                li = set(lo)
+                for ins in reversed(b.instrs):
+                    if ins.op == 'phi':
+                        continue
+                    u, d = uses_defs(ins)
+                    li -= d
+                    li |= u
+                li |= phidefs[b.label]          # phi results are defined on entry (by the edge copies)
+                if lo != live_out[b.label] or li != live_in[b.label]:
+                    live_out[b.label] = lo; live_in[b.label] = li; changed = True
+        persistent = set()
+        YIELDY = ('load', 'store', 'call', 'fence', 'atomicrmw', 'cmpxchg')
+        for b in f.blocks:
+            live = set(live_out[b.label])
+            for ins in reversed(b.instrs):
+                if ins.op == 'phi':
+                    continue
+                u, d = uses_defs(ins)
+                after = set(live)
+                live = (live - d) | u
+                yieldy = ins.op in YIELDY
+                if ins.op == 'load' and s.is_local_ptr(ins.args[0]):
+                    yieldy = False
+                if ins.op == 'store' and s.is_local_ptr(ins.args[1]):
+                    yieldy = False
+                if ins.op == 'call':
+                    cal = ins.x['callee']
+                    while isinstance(cal, CExpr) and cal.op == 'bitcast':
+                        cal = cal.args[0]
+                    if isinstance(cal, GlobalRef) and (cal.name.startswith('llvm.lifetime') or cal.name.startswith('llvm.dbg') or
+                                                       cal.name.startswith('llvm.assume') or cal.name.startswith('llvm.expect') or
+                                                       cal.name in ('rt_assert', 'rt_cover', 'rt_assume', 'rt_stamp', 'rt_self', 'rt_gset',
+                                                                    'rt_gget', 'rt_bset', 'rt_bget', 'rt_nondet_u64', 'rt_nondet_u32',
+                                                                    'rt_nondet_bool', 'rt_nondet_u8', 'abort', '__assert_fail', 'strerror',
+                                                                    '__errno_location', 'perror', 'fprintf', 'pthread_self')):
+                        yieldy = False
+                    if isinstance(cal, InlineAsm) and cal.tmpl.strip() in ('', 'sfence', 'lfence'):
+                        yieldy = False
+                if yieldy:
+                    # a yield may happen before the instruction (live-in) or, for blocking primitives and spin hints that are
+                    # re-entered / resumed right after, between the instruction and its successors (live-out incl. its result)
+                    persistent |= live
+                    persistent |= after
+        s.persistent = persistent
